@@ -101,9 +101,13 @@ PROPS = {
         "level_note": "Trusts the reference validator in harness/config/zz_verif_common_test.go and go-toml's decoding of type-correct documents.",
     },
     "C01": {
-        "pkg": "internal/config",
-        "files": ["shared/zz_verif_doc_test.go", "config/zz_verif_common_test.go", "config/zz_verif_C02_test.go", "config/zz_verif_C01_test.go"],
-        "run": "TestVerif_C01",
+        "parts": [
+            {"pkg": "internal/config", "run": "TestVerif_C01",
+             "files": ["shared/zz_verif_doc_test.go", "config/zz_verif_common_test.go", "config/zz_verif_C02_test.go", "config/zz_verif_C01_test.go"]},
+            {"pkg": "internal/corerad", "run": "TestVerif_C01adv",
+             "files": ["shared/zz_verif_doc_test.go", "corerad/zz_verif_C12_test.go", "corerad/zz_verif_sim_test.go", "corerad/zz_verif_adv_test.go", "corerad/zz_verif_mon_test.go",
+                       "corerad/zz_verif_C06_test.go", "corerad/zz_verif_C04_test.go", "corerad/zz_verif_C17_test.go", "corerad/zz_verif_C01adv_test.go"]},
+        ],
         "level": "exploration",
         "quick": {"shards": 8},
         "thorough": {"shards": 16, "timeout_s": 5400},
@@ -115,7 +119,7 @@ PROPS = {
                  "PREF64 lifetime), idempotence, configuration unchanged. Non-trivial: >=2 option kinds, a wildcard with successful "
                  "generation, a deprecated stanza or a non-default header field. Distinct: FNV-64 of the canonical JSON case."),
         "assumptions": [STAGED, "documents the C02 reference does not accept are skipped (counted in class not-an-accepted-configuration)",
-                        "the Advertiser path (buildRA -> Conn.WriteTo) is covered by the corerad harnesses (C04, C07) with the same oracle"],
+                        BUBBLE],
         "technique": "rapid property-based testing + bounded-exhaustive enumeration against a reference RA builder; idempotence metamorphic relation",
         "level_text": "Generated configurations and system states compared with an independently computed RA; counterexample search, not proof.",
         "level_note": "Trusts expectRA/reference in harness/shared/zz_verif_doc_test.go and kit/verifref; sources injected through the plugins' exported fields.",
